@@ -49,6 +49,34 @@ CLAIMS = {
    text="TLC checks the frame conditions on PrayerDay.tla (an offset reaches only its prayer, Imsaak follows Fajr; interval definitions; extreme Fajr => extreme Imsaak an interval earlier; LegacyImsaak shows D7); recorded pairs of public calls differing in exactly one parameter (each offset key, each interval, +-1 degree angles, school, weather incl. absent-vs-default) and policy runs are validated by TLC",
    note="frame conditions under policy None; shifts to +-1 s; 'unchanged' exactly; the Imsaak offset key is held to 'no effect'",
    tech="TLA+ spec (PrayerDay) + TLC model checking + TLC trace validation of paired public calls", ref="§5 C12"),
+ "C01": dict(
+   text="Sun.tla specifies an ephemeris independent of the library (Meeus low-precision theory in 32-bit fixed point; its envelope is model-checked by SunMC: unit vector, declination <= obliquity, daily motion, sidereal gain, mean noon within the equation of time); for every recorded public call TLC evaluates it at the reported Dhuhr (UT via the gmt offset) and demands |hour angle| <= 14 s and upper transit; Dhuhr must be reported at all latitudes incl. the poles",
+   note="tolerance = 10 s + 3 s oracle error + 1 s truncation; Delta-T ignored by both sides; quick samples dates (equinox week, month/year ends, leap days + random), thorough every 5th date 1600..2399",
+   tech="TLA+ environment spec (Sun/FixedPoint) + TLC evaluation on recorded public calls (trace validation)", ref="§5 C01"),
+ "C02": dict(
+   text="TLC evaluates Sun.tla at the reported Shurooq and Maghrib instants of recorded calls (|lat|<=60, weather absent/corners/interior): geometric altitude -0.8333 within 0.065 degree, Shurooq before / Maghrib after the same day's Dhuhr by hour-angle sign; paired calls without/with weather: Shurooq/Maghrib move < 60 s, Dhuhr/Asr and angle-defined Fajr/Isha identical, interval-defined Isha moves with Maghrib",
+   note="tolerance 0.05 + 0.015 degree (oracle); events attributed to the solar day of the reported Dhuhr",
+   tech="TLA+ environment spec (Sun) + TLC trace validation", ref="§5 C02"),
+ "C03": dict(
+   text="for recorded calls with the 6 angle methods and custom angles TLC checks at Fajr, Isha and Imsaak: the hour-angle formula with the date's declination (from Sun.tla at 0 h local) gives the configured depression within 0.042 degree, the instantaneous altitude from Sun.tla is within 0.515 degree, proper side of noon; paired calls with larger angles: Fajr/Imsaak not later, Isha not earlier, existence monotone",
+   note="declination of the date = at 0 h local civil time (library's and Meeus' convention)",
+   tech="TLA+ environment spec (Sun) + TLC trace validation", ref="§5 C03"),
+ "C04": dict(
+   text="TLC solves cot a = k + tan|lat - dec| by bisection in fixed point (dec from Sun.tla) and compares with the altitude the hour-angle formula gives at the reported Asr (0.042 degree), incl. a zenith-passage stratum; Dhuhr < Asr < Maghrib; paired Shafi/Hanafi calls: Hanafi strictly later, nothing else differs",
+   note="declination of the date = at 0 h local civil time",
+   tech="TLA+ environment spec (Sun) + TLC trace validation", ref="§5 C04"),
+ "C06": dict(
+   text="for recorded policy-None calls up to latitude +-89.5, stratified around the onset/end of missing twilight and polar day/night, TLC derives the Sun's extreme altitudes of the date from Sun.tla's declination at 0 h and 24 h local and demands: surely reached => reported, never reached => Invalid, for Fajr, Isha, Imsaak, Shurooq, Maghrib and Asr (exempt within 0.065 degree of the defining altitude, and Asr when the Sun does not culminate above the horizon)",
+   note="exemption band = property's 0.05 degree + oracle 0.015 degree",
+   tech="TLA+ environment spec (Sun) + TLC trace validation", ref="§5 C06"),
+ "C13": dict(
+   text="a history of consecutive dates at one site is validated by TLC as a behaviour of SolarTrace's HDay action, which carries the two previous days as state and bounds the first difference (< 4 min) and the second difference (5/8/12 s + 2 s truncation, by prayer and latitude band); quick: equinox, Feb/March and year-end windows of 40 site-years + 3000 random triples; thorough: every consecutive date 1600..2399 at 2 sites",
+   note="no oracle needed; circular clock differences; bounds + 2 s for three truncated times",
+   tech="TLA+ action property over recorded histories (TLC trace validation with state)", ref="§5 C13"),
+ "C20": dict(
+   text="pairs of calls for the same date at two zone settings (gmt +-0.5/1/3 h; 15 degrees east with gmt + 1 h) are validated by TLC: every entry shifts by d (resp. stays) within 12 s, validity equal; known finding F1 (3-h shifts deviate up to ~17 s) is modelled as a named spec action enabled only while listed in known_findings.json",
+   note="entries within 30 s of civil midnight or moved across it are skipped (adjacent solar day's event); tolerance 10 s + 2 s truncation",
+   tech="TLA+ relational spec (SolarTrace) + TLC trace validation of paired public calls", ref="§5 C20"),
 }
 NA_REASON = "check under construction in this round (DESIGN.md §8 build order); not yet claimed"
 
